@@ -589,7 +589,14 @@ func (fr *Frame) execBinOp(ins *ssa.BinOp) {
 		fr.bind(ins, vc.bvBinOp(ins, x, y, w, signed))
 		return
 	}
-	fr.bind(ins, fr.intBinOp(ins, x, y, w, signed))
+	// arithmetic results are named by constants (not macros), so that index terms such as a[off + i]
+	// keep the shape the quantifier triggers were written for
+	body := fr.intBinOp(ins, x, y, w, signed)
+	s := vc.sortOf(ins.Type())
+	n := fmt.Sprintf("%s_%s", fr.id, ins.Name())
+	vc.declare(n, s)
+	vc.assume(fmt.Sprintf("(= %s %s)", n, body))
+	fr.vals[ins] = Term{n, s, ins.Type()}
 }
 
 func (vc *VC) bvBinOp(ins *ssa.BinOp, x, y Term, w int, signed bool) string {
